@@ -1270,7 +1270,11 @@ func toString(v interface{}) string {
 	case []byte:
 		return string(val)
 	case fmt.Stringer:
-		return val.String()
+		// a nil pointer whose String method has a value receiver (a nil
+		// *time.Time) cannot be asked: calling it panics
+		if rv := reflect.ValueOf(v); rv.Kind() != reflect.Ptr || !rv.IsNil() {
+			return val.String()
+		}
 	}
 
 	// A pointer to a number, string, slice or map prints what it points to;
